@@ -1,11 +1,12 @@
 #!/bin/sh
 # Offline setup: builds the driver and warms the build cache for the harness packages.
 set -e
+ROOT=$(cd "$(dirname "$0")" && pwd)
 export GOFLAGS=-mod=mod GOPROXY=off GOSUMDB=off GOTOOLCHAIN=local
-cd /verif/harness
-mkdir -p /verif/bin
-go build -o /verif/bin/check ./cmd/check
+cd "$ROOT/harness"
+mkdir -p "$ROOT/bin"
+go build -o "$ROOT/bin/check" ./cmd/check
 go build ./...
-go test -c -vet=off -o /verif/bin/verif.test ./props
-go build -o /verif/bin/protoc-gen-gogo github.com/gogo/protobuf/protoc-gen-gogo
+go test -c -vet=off -o "$ROOT/bin/verif.test" ./props
+go build -o "$ROOT/bin/protoc-gen-gogo" github.com/gogo/protobuf/protoc-gen-gogo
 echo setup ok
